@@ -5,7 +5,7 @@ package hclsyntax
 // fragments from a fragment alphabet is fed to ParseConfig, ParseExpression and
 // ParseTemplate: none may panic (in particular the newline-stack assertion), the
 // result must be non-nil and every diagnostic must have a severity, a summary
-// and ranges inside the input.
+// and ranges inside the input, and the input buffer must be left unchanged.
 
 import (
 	"fmt"
@@ -16,7 +16,7 @@ import (
 )
 
 var verifParseFragments = []string{
-	"a", "=", "1", "\n", "{", "}", "[", "]", "(", ")", ",", ".", "\"", "${", "%{", "for", "in", "if", "else", "endif", "endfor", ":", "=>", "*", "<<EOT\n", "EOT\n", "?", "...", "k, ", "~}",
+	"a", "=", "1", "\n", "{", "}", "[", "]", "(", ")", ",", ".", "\"", "${", "%{", "for", "in", "if", "else", "endif", "endfor", ":", "=>", "*", "<<EOT\n", "EOT\n", "?", "...", "k, ", "~}", "::",
 }
 
 func verifCheckDiags(src []byte, diags hcl.Diagnostics, what string) string {
@@ -45,7 +45,14 @@ func verifParseCheck(src string) (msg string) {
 			msg = fmt.Sprintf("panic: %v", r)
 		}
 	}()
-	b := []byte(src)
+	// the buffer has spare capacity, as a caller's reused buffer may: a parser that
+	// appends to a sub-slice of its input would write into it
+	b := append(make([]byte, 0, len(src)+64), src...)
+	defer func() {
+		if msg == "" && string(b) != src {
+			msg = fmt.Sprintf("the parser modified its input buffer: now %q", b)
+		}
+	}()
 	f, d := ParseConfig(b, "t.hcl", hcl.InitialPos)
 	if f == nil || f.Body == nil {
 		return "ParseConfig returned a nil result"
@@ -99,12 +106,12 @@ func TestVerifReplayParse(t *testing.T) {
 	}
 	rec("", maxLen)
 	// the directive shapes that need longer inputs
-	for _, s := range []string{"%{ for k, [v] in coll }x%{ endfor }", "%{ for k, v in coll }x%{ endfor }", "%{ for [k], v in coll }x%{ endfor }", "%{ for k v in coll }x%{ endfor }", "%{ for k, v coll }x%{ endfor }", "%{ if a }b%{ else }c%{ endif }", "%{ if }", "%{ for }", "%{ endfor }", "\"%{ for k, [v] in coll }x%{ endfor }\"", "a = \"%{ for k, [v] in c }x%{ endfor }\"\n", "a = <<EOT\n%{ for k, [v] in c }\nx\n%{ endfor }\nEOT\n", "[for k, [v] in c: v]", "{for k, v in c: k => v... if}", "a = [\n1,\n", "f(\n1,\n", "a = {\n b = 1\n", "x \"y\" z {"} {
+	for _, s := range []string{"%{ for k, [v] in coll }x%{ endfor }", "%{ for k, v in coll }x%{ endfor }", "%{ for [k], v in coll }x%{ endfor }", "%{ for k v in coll }x%{ endfor }", "%{ for k, v coll }x%{ endfor }", "%{ if a }b%{ else }c%{ endif }", "%{ if }", "%{ for }", "%{ endfor }", "\"%{ for k, [v] in coll }x%{ endfor }\"", "a = \"%{ for k, [v] in c }x%{ endfor }\"\n", "a = <<EOT\n%{ for k, [v] in c }\nx\n%{ endfor }\nEOT\n", "[for k, [v] in c: v]", "{for k, v in c: k => v... if}", "a = [\n1,\n", "f(\n1,\n", "a = {\n b = 1\n", "x \"y\" z {", "x = ns :: sub :: f(1)\n", "ns /* c */ :: f()", "a::b::c(1, 2...)"} {
 		n++
 		if msg := verifParseCheck(s); msg != "" {
 			t.Errorf("REPLAY-FAIL func=hclsyntax.Parse* input=%q: %s", s, msg)
 			return
 		}
 	}
-	fmt.Printf("STANDIN inputs=%d bound=\"every sequence of at most %d fragments from a %d-fragment alphabet plus 18 directive shapes, 3 entry points\"\n", n, maxLen, len(verifParseFragments))
+	fmt.Printf("STANDIN inputs=%d bound=\"every sequence of at most %d fragments from a %d-fragment alphabet plus 21 longer shapes, 3 entry points\"\n", n, maxLen, len(verifParseFragments))
 }
